@@ -121,6 +121,28 @@ class Check(PropCheck):
                 else:
                     q = rng.randrange(len(s)); s[p], s[q] = s[q], s[p]
             strings.append(''.join(s))
+        # structured extremes: nesting deeper than any 8-bit counter (balanced and not), lengths beyond the f64 range, special float texts
+        ext = []
+        for d, c in [(200, 200), (255, 255), (256, 256), (256, 255), (257, 256), (257, 1), (300, 300), (300, 299), (300, 260), (300, 44), (520, 520),
+                     (520, 264), (520, 8)]:
+            ext.append('(' * d + 'A' + ')' * c + ';')
+            ext.append('(' * d + 'A,B' + ')' * c + ';')
+            ext.append('(' * d + 'A:1' + '):2' * c + ';')
+        for l1 in ['1e309', '-1e400', '2E999', '1' + '0' * 310, '1e-400', '-1e-330', '4.9e-324', '2e-324', '1.7976931348623159e308', 'inf', '-inf',
+                   '+inf', 'Infinity', '-INF', 'nan', 'NaN', '-nan', '+NaN', '1e', 'e5', '.e1', '1.e1', '.5', '5.', '+.5e-1', '1_0', '0x10', '1e+', '--1', '+-1',
+                   '1e1.5', 'infx', 'in', '٣', '1١']:
+            ext.append('(A:%s,B:1);' % l1)
+            ext.append('(A:1,B:%s)C:%s;' % (l1, l1))
+        # malformed lengths after multi-byte text at every alignment (error paths that slice the input must respect char boundaries)
+        mb = ['ü', 'ö', 'Ż', 'ó', 'ł', '中', 'é', '\U0001F600', 'ß', 'ε']
+        for q in range(160 if self.tier == 'quick' else 4000):
+            nm = lambda: ''.join(rng.choice(mb + ['a', 'b', '_', '1']) for _ in range(rng.randint(1, 14)))
+            badl = rng.choice(['O.5', '1x', 'abc', '1..2', '1e', '-', '0.1.2', 'é', '1 2', '٣', '1,5'.replace(',', 'ü')])
+            goodl = rng.choice(['0.1', '2', '1e-3'])
+            parts = [nm() + ':' + (badl if i == rng.randint(0, 3) else goodl) for i in range(4)]
+            ext.append('((%s,%s):0.3,%s,%s)%s;' % (parts[0], parts[1], parts[2], parts[3], nm()))
+        strings += ext
+        self.stats['structured_extremes'] = len(ext)
         self.stats['fuzz_strings'] = nf
         for i, s in enumerate(strings):
             cases.append(Case('s%d' % i, ['parse ' + vf.enc_str(s), 'dump', 'rt_newick'], {'text': s}))
